@@ -396,6 +396,9 @@ func (vlog *valueLog) write(reqs []*request) error {
 			for i, idx := range idxs {
 				entries[i] = req.Entries[idx]
 			}
+			// A failing append may already have reserved space in the segment: the bucket
+			// counts as touched from here on, so that the failure path rewinds it too.
+			touched[bucket] = struct{}{}
 			ptrs, err := mgr.AppendEntries(entries, nil)
 			if err != nil {
 				return fail(err, "rewind value log after append failure")
@@ -403,7 +406,6 @@ func (vlog *valueLog) write(reqs []*request) error {
 			for i, idx := range idxs {
 				req.Ptrs[idx] = ptrs[i]
 			}
-			touched[bucket] = struct{}{}
 		}
 	}
 	if wrote && vlog.db != nil && vlog.db.opt.SyncWrites {
